@@ -490,6 +490,17 @@ def chmod_programs(rng, tier):
               "os.chmod('/tmp/x', 0o777)", "os.chmod('0.0.0.0', 0o777)", "os.chmod(token, 0o777, secret='s')",
               "x.chmod('/tmp/a', 0o2, password='p', **'q')"]:
         out["chmod_crash"].append(P(s))
+    # (kept with the crash group, which is never sampled away) the call reached through an alias while a method / an inner
+    # function / a nested class of the alias's name exists: those do not rebind the module-level name
+    for imp, callee in (("from os import chmod", "chmod"), ("from os import chmod as zz_set_mode", "zz_set_mode"), ("import os as zz_o", "zz_o.chmod")):
+        nm = callee.split(".")[0]
+        for shadow in ("class ZzK:\n    def %s(self, *zz_a):\n        return zz_a" % nm, "def zz_outer():\n    def %s():\n        pass\n    return 1" % nm,
+                       "class ZzK:\n    class %s:\n        pass" % nm):
+            out["chmod_crash"].append(P("\n".join([imp, shadow, "%s('/x', 0o777)" % callee, "%s('/y', 0o640)" % callee, "%s('/z', 0o620)" % callee])))
+    # temp-directory literals as the value of every kind of keyword, whatever the callee
+    for callee in ("zz_save", "zz_o.cache", "dict", "tempfile.mkstemp", "open"):
+        out["chmod_crash"].append(P("\n".join(["import tempfile", "%s(zz_b, dir='/tmp/zz_up')" % callee, "%s(dir='/var/tmp/zz_c', prefix='/dev/shm/zz_p')" % callee,
+                                               "%s(zz_b, suffix='/tmp/zz_s', zz_other='/tmp/zz_o')" % callee])))
     return out
 
 
